@@ -168,6 +168,16 @@ class Concretiser:
                 return s
         n = n.as_long() if z3.is_int_value(n) else 0
         n = max(0, min(n, 70000))
+        # honour the model's code-point count where it says the string is not ASCII: k two-byte characters
+        from kvc.core import clen, isascii
+        try:
+            asc = self.ev(isascii(t))
+            c = self.ev(clen(t))
+            if z3.is_false(asc) and z3.is_int_value(c) and 0 <= n - c.as_long() <= c.as_long():
+                k = n - c.as_long()
+                return "\u00e9" * k + "a" * (c.as_long() - k)
+        except Exception:        # noqa: BLE001
+            pass
         return "a" * n
 
     def uuid_(self, t):
